@@ -116,6 +116,11 @@ impl Stats {
     pub fn class_count(&self, name: &str) -> u64 {
         *self.classes.lock().unwrap().get(name).unwrap_or(&0)
     }
+    /// Sum of the counts of `name` and of every class `name:<detail>`.
+    pub fn class_family_count(&self, name: &str) -> u64 {
+        let prefix = format!("{name}:");
+        self.classes.lock().unwrap().iter().filter(|(k, _)| *k == name || k.starts_with(&prefix)).map(|(_, v)| *v).sum()
+    }
     pub fn samples_json(&self) -> Vec<Value> {
         self.samples.lock().unwrap().clone()
     }
@@ -295,6 +300,10 @@ where
                             Ok(()) => Ok(()),
                             Err(bad) => {
                                 failed.set(true);
+                                // the other shards stop starting new cases as soon as one failure is known
+                                // (not only once it has been shrunk): against a tree that hangs on many
+                                // inputs every further failing case costs minutes
+                                stop.store(true, Ordering::Relaxed);
                                 let reason = bad.reason.clone();
                                 LAST_BAD.with(|b| *b.borrow_mut() = Some(bad));
                                 Err(TestCaseError::fail(reason))
